@@ -411,6 +411,10 @@ class Interp:
             bases = self.opts.get('unit_bases', ('L', 'g', 'mol', 'U'))
             self.memo[('role', v.name)] = 'unit'
             self.memo[('unitbase', v.name)] = bases[self.choose(len(bases), f"base of unit {v.name}")]
+        if isinstance(v, UserStr) and self.memo.get(('role', v.name)) != 'unit':
+            # the same user string was already taken as a quantity / concentration on this path: as a plain unit it
+            # is rejected by the prefix table
+            raise Raised('ValueError', getattr(node, 'lineno', 0))
         t = self.as_tstr(v)
         if t is None:
             self.incomplete(node, f"{what}: not a string ({v!r})")
@@ -590,12 +594,23 @@ class Interp:
                 return self.config_attr(n.attr, n)
             if n.attr in o.attrs:
                 return o.attrs[n.attr]
-            return Other(f"{o.what}.{n.attr}")
+            return self.obj_default_attr(o, n.attr)
         if isinstance(o, Other):
             return Other(f"{o.d}.{n.attr}")
         if isinstance(o, NoneV):
             raise Raised('AttributeError', n.lineno)
         return Other('attr.' + n.attr)
+
+    def obj_default_attr(self, o, attr):
+        if o.what in ('Plate',) and attr == 'wells':
+            return Obj('wells')
+        if o.what in ('Plate',) and attr == 'max_volume_per_well':
+            return Num(PVS_L)
+        if o.what == 'PlateSlicer' and attr == 'plate':
+            return Obj('Plate')
+        if o.what == 'PlateSlicer' and attr == 'array':
+            return Obj('wells')
+        return Other(f"{o.what}.{attr}")
 
     def truth(self, v):
         if isinstance(v, Bool):
@@ -608,6 +623,8 @@ class Interp:
             return v.t.text() != ''
         if isinstance(v, (Tup, ListV, DictV)):
             return len(v) > 0 if not getattr(v, 'open', False) else None
+        if isinstance(v, Contents):
+            return None
         if isinstance(v, (Subst, Cont, Closure, UserQ, UserC, UserStr)):
             return True
         return None
@@ -894,6 +911,12 @@ class Interp:
                         return v
                 raise Raised('KeyError', n.lineno)
             return Other('dict-lookup')
+        if isinstance(o, Obj) and o.what == 'wells':
+            return Cont(self.new_sym('well'))
+        if isinstance(o, Obj) and o.what == 'Plate':
+            return Obj('PlateSlicer', {'plate': o})
+        if isinstance(o, (Tup, ListV)) and getattr(o, 'open', False):
+            return o            # a slice / selection of an open sequence
         if isinstance(o, Other) or isinstance(o, Obj):
             return Other('subscript')
         return Other('subscript')
